@@ -59,6 +59,10 @@ func (s c16Spec) ops(st *c16State) (out []opx) {
 		out = append(out, txnOp(w, []model.Act{{Op: "put", Off: r, W: []model.Write{{Col: "s", V: model.Val{S: "b"}}}}}, false))
 		if i == 0 {
 			out = append(out, txnOp(w, []model.Act{{Op: "put", Off: r, W: []model.Write{{Col: "s", V: model.Val{S: "a"}, Merge: true}}}}, false))
+			// merge, then overwrite, of one row in one transaction (the row ends on the overwrite)
+			x := txnOp(w, []model.Act{{Op: "put", Off: r, W: []model.Write{{Col: "s", V: model.Val{S: "a"}, Merge: true}, {Col: "s", V: model.Val{S: "b"}}}}}, false)
+			x.tag = "variable-length merge then overwrite of the same row in one transaction"
+			out = append(out, x)
 		}
 		out = append(out, txnOp(w, []model.Act{{Op: "del", Off: r}}, false))
 	}
